@@ -43,9 +43,10 @@ Chk(cond, id, k, clause, tag) == IF cond THEN TRUE ELSE Fail(id, k, clause, tag)
 -----------------------------------------------------------------------------
 (* domain of the property: known DFC, valid labels, TCI <= TCO, diacritics followed by their letter *)
 BlockInDomain(b, rate, cct) ==
-  /\ ValidTc(rate, b.tci) /\ ValidTc(rate, b.tco)
-  /\ Frames(rate, b.tci) <= Frames(rate, b.tco)
-  /\ DiaOk(UpToFiller(b.tf), 1, cct)
+  Kind(b, AllOn) \in {"ext", "terminal"} =>          \* skipped blocks may contain anything
+    /\ ValidTc(rate, b.tci) /\ ValidTc(rate, b.tco)
+    /\ Frames(rate, b.tci) <= Frames(rate, b.tco)
+    /\ DiaOk(UpToFiller(b.tf), 1, cct)
 InDomain(rec) ==
   /\ DfcKnown(rec.gsi.dfc)
   /\ rec.gsi.cct \in {"00", "01", "02", "03", "04"}
@@ -78,6 +79,12 @@ DfStart(rec) == CASE rec.cfg.start = "none" -> 0 [] rec.cfg.start = "tcp" -> DfF
 TimeTag(rec, W, p, q, tc) ==
   IF rec.gsi.dfc = "STL30.01" /\ DfFrames(tc) - DfStart(rec) >= 0 /\ OffsetEqDf(W, p, q, DfFrames(tc) - DfStart(rec))
   THEN "as_30000_1001_drop_frame" ELSE "other"
+
+\* number of subtitles a 29.97 drop-frame reading keeps (it orders the labels differently around dropped labels)
+DfCount(rec) == Cardinality({q \in 1..Len(rec.blocks) :
+                    /\ Kind(rec.blocks[q], AllOn) = "terminal"
+                    /\ DfFrames(rec.blocks[q].tci) - DfStart(rec) >= 0
+                    /\ DfFrames(rec.blocks[q].tco) >= DfFrames(rec.blocks[q].tci)})
 
 -----------------------------------------------------------------------------
 (* text *)
@@ -163,7 +170,8 @@ CheckRec(j) ==
   /\ Chk(rec.obs.pad = 1 - rec.cfg.nopad, id, 0, "cfg_line_padding", "")
   /\ Chk(rec.obs.font = rec.cfg.font, id, 0, "cfg_font_stack", "")
   /\ IF n # Len(exp)
-     THEN IF n = cnt([AllOn EXCEPT !.comments = FALSE]) THEN Fail(id, 0, "comment_skipped", "comment_read_as_subtitle")
+     THEN IF rec.gsi.dfc = "STL30.01" /\ n = DfCount(rec) THEN Fail(id, 0, "subtitle_count", "as_30000_1001_drop_frame")
+          ELSE IF n = cnt([AllOn EXCEPT !.comments = FALSE]) THEN Fail(id, 0, "comment_skipped", "comment_read_as_subtitle")
           ELSE IF n = cnt([AllOn EXCEPT !.user = FALSE]) THEN Fail(id, 0, "userdata_skipped", "user_data_read_as_text")
           ELSE IF n = cnt([AllOn EXCEPT !.drop = FALSE]) THEN Fail(id, 0, "dropped_before_start", "early_subtitle_kept")
           ELSE Fail(id, 0, "subtitle_count", IF n < Len(exp) THEN "fewer" ELSE "more")
